@@ -295,7 +295,213 @@ fn boxed_ops(op: &str, a: &[&str]) -> Option<String> {
     })
 }
 
+// ------------------------------------------------------------------ hooks: the safegcd building blocks
+// (`crypto_bigint::verif_hooks::{safegcd, safegcd_boxed}`) on plain arrays / slices of 62-bit limbs.
+// Unsaturated integers are comma-separated limb lists (least significant first, each a u64 in hex);
+// `i64` values (delta, matrix entries, inverse, multiplier) are the hex of their two's complement u64.
+//
+//   c10.hook.inv_mod2_62 <w0[,w1…]>                      c10.hook.iterations <f_bits> <g_bits>
+//   c10.hook.jump <f limbs> <g limbs> <delta>            → delta' t00 t01 t10 t11
+//   c10.hook.fg <f> <g> <t00,t01,t10,t11>                → f' g'          (LIMBS = list length; bfg = boxed twin)
+//   c10.hook.de <modulus> <inverse> <t> <d> <e>          → d' e'          (bde)
+//   c10.hook.divsteps <vt> <e> <f0> <g> <inverse>        → d f            (bdivsteps <vt> <d> <e> <f0> <g> <inverse> → d' g' f)
+//   c10.hook.from_uint <sat> <unsat> <hex>  → limbs      c10.hook.to_uint <sat> <limbs> → hex
+//   c10.hook.bfrom_uint <sat> <hex> <nlimbs>             c10.hook.bto_uint <limbs> <bits_precision> → <n>:<hex>
+//   c10.hook.{add,eq} <a> <b>   c10.hook.mul <a> <i64>   c10.hook.{neg,shr,is_negative,lz,bits} <a>   (b-prefixed: boxed)
+//   c10.hook.inverter <sat> <m> <adj> → modulus adjuster inverse     c10.hook.norm <sat> <m> <value> <negate>
+//   c10.hook.binverter <n> <m> <nadj> <adj>                           c10.hook.bnorm <n> <m> <value> <negate>
+//   c10.hook.bnlimbs <sat>
+mod hook {
+    use crate::util::*;
+    use crypto_bigint::modular::{BoxedSafeGcdInverter, SafeGcdInverter};
+    use crypto_bigint::verif_hooks::{safegcd as h, safegcd_boxed as hb};
+    use crypto_bigint::{Odd, Uint};
+
+    pub fn limbs(s: &str) -> Option<Vec<u64>> {
+        s.split(',').map(word).collect()
+    }
+    pub fn i64of(s: &str) -> Option<i64> {
+        Some(word(s)? as i64)
+    }
+    pub fn mat(s: &str) -> Option<[[i64; 2]; 2]> {
+        let v: Vec<i64> = s.split(',').map(i64of).collect::<Option<_>>()?;
+        if v.len() != 4 {
+            return None;
+        }
+        Some([[v[0], v[1]], [v[2], v[3]]])
+    }
+    pub fn ltok(l: &[u64]) -> String {
+        l.iter().map(|x| format!("{x:x}")).collect::<Vec<_>>().join(",")
+    }
+    fn arr<const L: usize>(s: &str) -> Option<[u64; L]> {
+        limbs(s)?.try_into().ok()
+    }
+    fn x64(v: i64) -> String {
+        format!("{:x}", v as u64)
+    }
+
+    /// ops on `UnsatInt<L>` for one `L`; `a` = the line's arguments
+    pub fn fixed<const L: usize>(name: &str, a: &[&str]) -> Option<String> {
+        Some(match (name, a) {
+            ("fg", [f, g, t]) => {
+                let (f, g) = h::fg::<L>(arg!(arr(f)), arg!(arr(g)), arg!(mat(t)));
+                format!("{} {}", ltok(&f), ltok(&g))
+            }
+            ("de", [m, inv, t, d, e]) => {
+                let (d, e) = h::de::<L>(arg!(arr(m)), arg!(i64of(inv)), arg!(mat(t)), arg!(arr(d)), arg!(arr(e)));
+                format!("{} {}", ltok(&d), ltok(&e))
+            }
+            ("divsteps", [vt, e, f0, g, inv]) => {
+                let (e, f0, g, inv) = (arg!(arr::<L>(e)), arg!(arr::<L>(f0)), arg!(arr::<L>(g)), arg!(i64of(inv)));
+                let (d, f) = match *vt {
+                    "0" => h::divsteps(e, f0, g, inv),
+                    "1" => h::divsteps_vartime(e, f0, g, inv),
+                    _ => return Some(BAD.into()),
+                };
+                format!("{} {}", ltok(&d), ltok(&f))
+            }
+            ("add", [x, y]) => ltok(&h::unsat_add::<L>(arg!(arr(x)), arg!(arr(y)))),
+            ("mul", [x, y]) => ltok(&h::unsat_mul::<L>(arg!(arr(x)), arg!(i64of(y)))),
+            ("neg", [x]) => ltok(&h::unsat_neg::<L>(arg!(arr(x)))),
+            ("shr", [x]) => ltok(&h::unsat_shr::<L>(arg!(arr(x)))),
+            ("eq", [x, y]) => bit(h::unsat_eq::<L>(arg!(arr(x)), arg!(arr(y)))),
+            ("is_negative", [x]) => bit(h::unsat_is_negative::<L>(arg!(arr(x)))),
+            ("lz", [x]) => format!("{}", h::unsat_leading_zeros::<L>(arg!(arr(x)))),
+            ("bits", [x]) => format!("{}", h::unsat_bits::<L>(arg!(arr(x)))),
+            _ => return None,
+        })
+    }
+
+    /// ops tied to a saturated width: conversions and the inverter
+    pub fn sat<const S: usize, const L: usize>(name: &str, a: &[&str]) -> Option<String> {
+        Some(match (name, a) {
+            ("from_uint", [x]) => ltok(&h::unsat_from_uint::<S, L>(&arg!(uint::<S>(x)))),
+            ("to_uint", [x]) => uhex(&h::unsat_to_uint::<S, L>(arg!(arr(x)))),
+            ("inverter", [m, adj]) => {
+                let m: Odd<Uint<S>> = arg!(Option::from(Odd::new(arg!(uint::<S>(m)))));
+                let inv = SafeGcdInverter::<S, L>::new(&m, &arg!(uint::<S>(adj)));
+                let (mo, ad, i) = h::inverter_fields(&inv);
+                format!("{} {} {}", ltok(&mo), ltok(&ad), x64(i))
+            }
+            ("norm", [m, v, neg]) => {
+                let m: Odd<Uint<S>> = arg!(Option::from(Odd::new(arg!(uint::<S>(m)))));
+                let inv = SafeGcdInverter::<S, L>::new(&m, &Uint::<S>::ONE);
+                ltok(&h::inverter_norm(&inv, arg!(arr(v)), arg!(super::flag(neg))))
+            }
+            _ => return None,
+        })
+    }
+
+    pub fn free(name: &str, a: &[&str]) -> Option<String> {
+        Some(match (name, a) {
+            ("inv_mod2_62", [w]) => x64(h::inv_mod2_62(&arg!(limbs(w)))),
+            ("iterations", [f, g]) => format!("{}", h::iterations(arg!(dec32(f)), arg!(dec32(g)))),
+            ("jump", [f, g, d]) => {
+                let (d, t) = h::jump(&arg!(limbs(f)), &arg!(limbs(g)), arg!(i64of(d)));
+                format!("{} {} {} {} {}", x64(d), x64(t[0][0]), x64(t[0][1]), x64(t[1][0]), x64(t[1][1]))
+            }
+            // ---- boxed twins
+            ("bnlimbs", [s]) => format!("{}", hb::unsat_nlimbs_for_sat_nlimbs(arg!(dec(s)))),
+            ("bfg", [f, g, t]) => {
+                let (f, g) = hb::fg(&arg!(limbs(f)), &arg!(limbs(g)), arg!(mat(t)));
+                format!("{} {}", ltok(&f), ltok(&g))
+            }
+            ("bde", [m, inv, t, d, e]) => {
+                let (d, e) = hb::de(&arg!(limbs(m)), arg!(i64of(inv)), arg!(mat(t)), &arg!(limbs(d)), &arg!(limbs(e)));
+                format!("{} {}", ltok(&d), ltok(&e))
+            }
+            ("bdivsteps", [vt, d, e, f0, g, inv]) => {
+                let (d, g, f) = hb::divsteps(
+                    &arg!(limbs(d)),
+                    &arg!(limbs(e)),
+                    &arg!(limbs(f0)),
+                    &arg!(limbs(g)),
+                    arg!(i64of(inv)),
+                    arg!(super::flag(vt)),
+                );
+                format!("{} {} {}", ltok(&d), ltok(&g), ltok(&f))
+            }
+            ("bfrom_uint", [s, x, n]) => ltok(&hb::unsat_from_uint_widened(&arg!(boxed(x, arg!(dec(s)))), arg!(dec(n)))),
+            ("bto_uint", [x, p]) => bhexlen(&hb::unsat_to_uint(&arg!(limbs(x)), arg!(dec32(p)))),
+            ("badd", [x, y]) => ltok(&hb::unsat_add(&arg!(limbs(x)), &arg!(limbs(y)))),
+            ("bmul", [x, y]) => ltok(&hb::unsat_mul(&arg!(limbs(x)), arg!(i64of(y)))),
+            ("bneg", [x]) => ltok(&hb::unsat_neg(&arg!(limbs(x)))),
+            ("bshr", [x]) => ltok(&hb::unsat_shr(&arg!(limbs(x)))),
+            ("bis_negative", [x]) => bit(hb::unsat_is_negative(&arg!(limbs(x)))),
+            ("blz", [x]) => format!("{}", hb::unsat_leading_zeros(&arg!(limbs(x)))),
+            ("bbits", [x]) => format!("{}", hb::unsat_bits(&arg!(limbs(x)))),
+            ("binverter", [n, m, na, adj]) => {
+                let m = arg!(Option::from(Odd::new(arg!(boxed(m, arg!(dec(n)))))));
+                let inv = BoxedSafeGcdInverter::new(&m, &arg!(boxed(adj, arg!(dec(na)))));
+                let (mo, ad, i) = hb::inverter_fields(&inv);
+                format!("{} {} {}", ltok(&mo), ltok(&ad), x64(i))
+            }
+            ("bnorm", [n, m, v, neg]) => {
+                let n = arg!(dec(n));
+                let m = arg!(Option::from(Odd::new(arg!(boxed(m, n)))));
+                let inv = BoxedSafeGcdInverter::new(&m, &crypto_bigint::BoxedUint::one_with_precision(64 * n as u32));
+                ltok(&hb::inverter_norm(&inv, &arg!(limbs(v)), arg!(super::flag(neg))))
+            }
+            _ => return None,
+        })
+    }
+}
+
+fn hook_dispatch(name: &str, a: &[&str]) -> Option<String> {
+    let unsupported = Some("unsupported-width".to_string());
+    match name {
+        // LIMBS = number of limbs of the first unsaturated operand
+        "fg" | "de" | "divsteps" | "add" | "mul" | "neg" | "shr" | "eq" | "is_negative" | "lz" | "bits" => {
+            let first = match name {
+                "divsteps" => a.get(1),
+                _ => a.first(),
+            };
+            let l = arg!(first.and_then(|s| hook::limbs(s))).len();
+            match l {
+                1 => hook::fixed::<1>(name, a),
+                2 => hook::fixed::<2>(name, a),
+                3 => hook::fixed::<3>(name, a),
+                4 => hook::fixed::<4>(name, a),
+                6 => hook::fixed::<6>(name, a),
+                10 => hook::fixed::<10>(name, a),
+                _ => unsupported,
+            }
+        }
+        "from_uint" | "to_uint" if a.len() >= 2 => {
+            let (s, l) = (arg!(dec(a[0])), arg!(dec(a[1])));
+            let rest = &a[2..];
+            match (s, l) {
+                (1, 3) => hook::sat::<1, 3>(name, rest),
+                (2, 4) => hook::sat::<2, 4>(name, rest),
+                (3, 5) => hook::sat::<3, 5>(name, rest),
+                (4, 6) => hook::sat::<4, 6>(name, rest),
+                (6, 8) => hook::sat::<6, 8>(name, rest),
+                (8, 10) => hook::sat::<8, 10>(name, rest),
+                (2, 3) => hook::sat::<2, 3>(name, rest), // mismatched: "incorrect number of limbs"
+                (1, 4) => hook::sat::<1, 4>(name, rest),
+                _ => unsupported,
+            }
+        }
+        "inverter" | "norm" if !a.is_empty() => {
+            let rest = &a[1..];
+            match arg!(dec(a[0])) {
+                1 => hook::sat::<1, 3>(name, rest),
+                2 => hook::sat::<2, 4>(name, rest),
+                3 => hook::sat::<3, 5>(name, rest),
+                4 => hook::sat::<4, 6>(name, rest),
+                6 => hook::sat::<6, 8>(name, rest),
+                8 => hook::sat::<8, 10>(name, rest),
+                _ => unsupported,
+            }
+        }
+        _ => hook::free(name, a),
+    }
+}
+
 pub fn dispatch(op: &str, a: &[&str]) -> Option<String> {
+    if let Some(name) = op.strip_prefix("c10.hook.") {
+        return hook_dispatch(name, a);
+    }
     if op.starts_with("c10.b.") {
         return boxed_ops(op, a);
     }
